@@ -92,7 +92,7 @@ add(_c('ce_triv', defines=['NDEBUG', 'VT_TRIVIAL'], only=CE_ONLY, model_defines=
 # language standards (C17): the same TU extracted under each -std; a function whose extracted text (with everything it inlines)
 # is identical to the C++20 extraction shares that proof, the others are proved against the SAME contract
 for _std, _nm in (('c++11', 'std11'), ('c++14', 'std14'), ('c++17', 'std17'), ('c++2b', 'std23')):
-    add(_c(_nm, std=_std, dedupe_against='main', facts=dict(_PF), props=['C17']))
+    add(_c(_nm, std=_std, dedupe_against='main', facts=dict(_PF), props=['C17', 'C16']))
 
 # the configuration class excluded everywhere else: inline capacity larger than max_size () (known finding KF-C12-1)
 add(_c('kf_inline_gt_max', model_defines={'KF_INLINE_EXCEEDS_MAX_SIZE': 1}, only=['svb_append_element__pcE'], props=['C12'],
@@ -176,6 +176,9 @@ QUICK = {
                    'svb_dtor', 'svb_ctor__pcA', 'svb_ctor__ul_pcE_pcA', 'svb_move_left__pE_pE_pE', 'svb_assign_with_copies'],
             'ce_triv': ['svb_append_element__pcE', 'svb_emplace_into_current__pE_pcE', 'svb_erase_range', 'svb_append_range__strong_pcE_pcE', 'svb_assign_with_range__pcE_pcE',
                         'svb_move_left__pE_pE_pE', 'svb_ctor__pcE_pcE_pcA', 'svb_resize_with__ul']},
+    'C16': {'main': ['nm_op_eq__pcsv_pcsv', 'nm_size__pcsv', 'nm_swap__psv_psv', 'nm_erase__psv_pcE'],
+            'std17': ['nm_op_eq__pcsv_pcsv', 'nm_op_ne__pcsv_pcsv', 'nm_op_lt__pcsv_pcsv', 'nm_op_ge__pcsv_pcsv', 'nm_op_gt__pcsv_pcsv', 'nm_op_le__pcsv_pcsv', 'nm_size__pcsv',
+                      'nm_ssize__pcsv', 'nm_empty__pcsv', 'nm_data__psv', 'nm_begin__psv', 'nm_end__psv', 'nm_swap__psv_psv', 'nm_erase__psv_pcE']},
     'C15': {'main': ['ai_external_range_length__FI_FI', 'ai_default_uninitialized_copy__FI_FI_pE', 'svb_append_range__strong_FI_FI', 'ai_external_range_length__pcE_pcE',
                      'svb_ctor__ul_pG_pcA', 'svb_ctor__II_II_pcA', 'svb_append_range__II_II', 'svb_append_range__strong_II_II', 'svb_assign_with_range__II_II', 'svb_insert_range__pE_II_II']},
     'C18': {'pair_gt': ['svb_ctor__psvbM'], 'pair_lt': ['svb_ctor__psvbM'],
